@@ -18,7 +18,9 @@ Record src := mk_src { s_cid : list N; s_seq : N; s_buf : dbuf }.
 Record uh := mk_uh { u_uni : N; u_buf : dbuf; u_ap : N; u_srcs : list src }.
 Inductive event :=
 | AcnEvData (uni : N)                                   (* the universe's closure ran *)
-| EvPage (cid : list N) (page last : N) (unis : list N).   (* discovery page callback *)
+| EvPage (cid : list N) (page last : N) (unis : list N)    (* discovery page callback *)
+| EvRdm133 (seq endpoint : N) (data : list N)           (* RDMInflator under E133Inflator: generic RDM handler *)
+| EvLlrp (dest : list N) (tn : N) (data : list N).       (* RDMInflator under LLRPInflator: generic RDM handler *)
 (* m_handlers, and the callbacks run so far (in reverse order) *)
 Definition nstate := (list uh * list event)%type.
 
@@ -191,6 +193,7 @@ Section Level.
   Variable inherit_ok : H -> bool.    (* DecodeHeader(NULL): may the last header be reused *)
   Variable handle : N -> H -> N -> N -> nstate -> prog nstate.
         (* child->InflatePDUBlock / HandlePDUData (vector, header, data offset, data length) *)
+  Variable init_h : option H.         (* Some: DecodeHeader(NULL) succeeds without an earlier header (RDMInflator) *)
 
   (* m_vector_set, m_last_vector, last header (None after ResetHeaderField) *)
   Definition lstate := (bool * N * option H)%type.
@@ -253,7 +256,7 @@ Section Level.
 
   Definition inflate_block (base length : N) (st : nstate) : prog nstate :=
     if length =? 0 then Ret st
-    else bind (blk_loop base length 0 ((false, 0, None), st) (S (N.to_nat length))) (fun s => Ret (snd s)).
+    else bind (blk_loop base length 0 ((false, 0, init_h), st) (S (N.to_nat length))) (fun s => Ret (snd s)).
 
   (* ------------------------------------------------------------ boundedness, generic *)
   Variable n : N.
@@ -342,7 +345,7 @@ End Level.
 Definition dmp_dec_hdr (off : N) : prog N := Read off (fun b => Ret b).
 Definition dmp_block (ign : bool) (cid : list N) (e : e131h) : N -> N -> nstate -> prog nstate :=
   inflate_block N DMP_VECTOR_SIZE DMP_HEADER_SIZE dmp_dec_hdr (fun _ => true)
-    (fun vector h off l st => dmp_handle ign cid e vector h off l st).
+    (fun vector h off l st => dmp_handle ign cid e vector h off l st) None.
 
 (* E131Inflator::DecodeHeader: memcpy of the whole e131_pdu_header, then the fields *)
 Definition e131_dec_hdr (off : N) : prog e131h :=
@@ -368,9 +371,42 @@ Definition rev2_handle (ign : bool) (cid : list N) (vector : N) (e : e131h) (off
   if vector =? VECTOR_E131_DATA then dmp_block ign cid e off l st else Ret st.
 
 Definition e131_block (ign : bool) (cid : list N) : N -> N -> nstate -> prog nstate :=
-  inflate_block e131h E131_VECTOR_SIZE E131_HEADER_SIZE e131_dec_hdr (fun _ => true) (e131_handle ign cid).
+  inflate_block e131h E131_VECTOR_SIZE E131_HEADER_SIZE e131_dec_hdr (fun _ => true) (e131_handle ign cid) None.
 Definition rev2_block (ign : bool) (cid : list N) : N -> N -> nstate -> prog nstate :=
-  inflate_block e131h E131_VECTOR_SIZE REV2_HEADER_SIZE rev2_dec_hdr (fun _ => true) (rev2_handle ign cid).
+  inflate_block e131h E131_VECTOR_SIZE REV2_HEADER_SIZE rev2_dec_hdr (fun _ => true) (rev2_handle ign cid) None.
+
+(* ---- E1.33 / LLRP header decoders (not wired into olad's E131Node; the harness adds them to the root inflator)
+   RDMInflator (vector size ONE_BYTE, a 0-byte header that DecodeHeader always accepts): HandlePDUData passes the
+   pdu_len bytes to the generic handler when the vector is VECTOR_RDM_CMD_RDM_DATA *)
+Definition rdm_block {T} (mk : T -> list N -> event) (hdr : T) : N -> N -> nstate -> prog nstate :=
+  inflate_block unit RDM_VECTOR_SIZE 0 (fun _ => Ret tt) (fun _ => true)
+    (fun vector _ off l st =>
+       if negb (vector =? VECTOR_RDM_CMD_RDM_DATA) then Ret st
+       else ReadBlk off l (fun d => Ret (fst st, mk hdr d :: snd st)))
+    (Some tt).
+(* E133Inflator::DecodeHeader: memcpy of the e133_pdu_header; sequence, endpoint *)
+Definition e133_dec_hdr (off : N) : prog (N * N) :=
+  ReadBlk off E133_HEADER_SIZE (fun l =>
+    let b i := nth (N.to_nat i) l 0 in
+    let o := E133_OFF_sequence in
+    Ret (16777216 * b o + 65536 * b (o + 1) + 256 * b (o + 2) + b (o + 3),
+         256 * b E133_OFF_endpoint + b (E133_OFF_endpoint + 1))).
+Definition e133_block : N -> N -> nstate -> prog nstate :=
+  inflate_block (N * N)%type E131_VECTOR_SIZE E133_HEADER_SIZE e133_dec_hdr (fun _ => true)
+    (fun vector h off l st =>
+       if vector =? VECTOR_FRAMING_RDMNET then rdm_block (fun h d => EvRdm133 (fst h) (snd h) d) h off l st else Ret st)
+    None.
+(* LLRPInflator::DecodeHeader: memcpy of the llrp_pdu_header; destination CID, transaction number *)
+Definition llrp_dec_hdr (off : N) : prog (list N * N) :=
+  ReadBlk off LLRP_HEADER_SIZE (fun l =>
+    let b i := nth (N.to_nat i) l 0 in
+    let o := LLRP_OFF_transaction in
+    Ret (firstn (N.to_nat CID_LENGTH) l, 16777216 * b o + 65536 * b (o + 1) + 256 * b (o + 2) + b (o + 3))).
+Definition llrp_block : N -> N -> nstate -> prog nstate :=
+  inflate_block (list N * N)%type E131_VECTOR_SIZE LLRP_HEADER_SIZE llrp_dec_hdr (fun _ => true)
+    (fun vector h off l st =>
+       if vector =? VECTOR_LLRP_RDM_CMD then rdm_block (fun h d => EvLlrp (fst h) (snd h) d) h off l st else Ret st)
+    None.
 
 (* RootInflator::DecodeHeader: CID::FromData(data); inheriting needs a non-nil CID *)
 Definition root_dec_hdr (off : N) : prog (list N) := ReadBlk off CID_LENGTH (fun l => Ret l).
@@ -378,9 +414,11 @@ Definition cid_not_nil (c : list N) : bool := negb (forallb (fun b => b =? 0) c)
 Definition root_handle (ign : bool) (vector : N) (cid : list N) (off l : N) (st : nstate) : prog nstate :=
   if vector =? VECTOR_ROOT_E131 then e131_block ign cid off l st
   else if vector =? VECTOR_ROOT_E131_REV2 then rev2_block ign cid off l st
+  else if vector =? VECTOR_ROOT_RPT then e133_block off l st
+  else if vector =? VECTOR_ROOT_LLRP then llrp_block off l st
   else Ret st.
 Definition root_block (ign : bool) : N -> N -> nstate -> prog nstate :=
-  inflate_block (list N) ROOT_VECTOR_SIZE CID_LENGTH root_dec_hdr cid_not_nil (root_handle ign).
+  inflate_block (list N) ROOT_VECTOR_SIZE CID_LENGTH root_dec_hdr cid_not_nil (root_handle ign) None.
 
 (* memcmp(m_recv_buffer, ACN_HEADER, header_size): all ACN_HEADER_SIZE bytes are inside the datagram *)
 Definition acn_handle (ign : bool) (n : N) (hs : list uh) : prog nstate :=
@@ -491,13 +529,36 @@ Proof.
     destruct (v =? VECTOR_E131_DATA); [apply dmp_block_bounded; assumption|constructor].
 Qed.
 
+Lemma rdm_block_bounded {T} n (mk : T -> list N -> event) hdr off l st :
+  off + l <= n -> bounded n (rdm_block mk hdr off l st).
+Proof.
+  intros Hn. unfold rdm_block. apply inflate_block_bounded; auto.
+  - intros; constructor.
+  - intros v h o ln s Ho. destruct (negb (v =? VECTOR_RDM_CMD_RDM_DATA)); [constructor|].
+    apply bBlk; [right; lia|]. intros; constructor.
+Qed.
+Lemma e133_block_bounded n off l st : off + l <= n -> bounded n (e133_block off l st).
+Proof.
+  intros Hn. unfold e133_block. apply inflate_block_bounded; auto.
+  - intros o Ho. unfold e133_dec_hdr. apply bBlk; [right; lia|]. intros; constructor.
+  - intros v h o ln s Ho. destruct (v =? VECTOR_FRAMING_RDMNET); [apply rdm_block_bounded; assumption|constructor].
+Qed.
+Lemma llrp_block_bounded n off l st : off + l <= n -> bounded n (llrp_block off l st).
+Proof.
+  intros Hn. unfold llrp_block. apply inflate_block_bounded; auto.
+  - intros o Ho. unfold llrp_dec_hdr. apply bBlk; [right; lia|]. intros; constructor.
+  - intros v h o ln s Ho. destruct (v =? VECTOR_LLRP_RDM_CMD); [apply rdm_block_bounded; assumption|constructor].
+Qed.
+
 Lemma root_block_bounded n ign off l st : off + l <= n -> bounded n (root_block ign off l st).
 Proof.
   intros Hn. unfold root_block. apply inflate_block_bounded; auto.
   - intros o Ho. unfold root_dec_hdr. apply bBlk; [right; lia|]. intros; constructor.
   - intros v h o ln s Ho. unfold root_handle.
     destruct (v =? VECTOR_ROOT_E131); [apply e131_block_bounded; assumption|].
-    destruct (v =? VECTOR_ROOT_E131_REV2); [apply rev2_block_bounded; assumption|constructor].
+    destruct (v =? VECTOR_ROOT_E131_REV2); [apply rev2_block_bounded; assumption|].
+    destruct (v =? VECTOR_ROOT_RPT); [apply e133_block_bounded; assumption|].
+    destruct (v =? VECTOR_ROOT_LLRP); [apply llrp_block_bounded; assumption|constructor].
 Qed.
 
 Lemma acn_bounded ign n hs : n <= ACN_MAX_DATAGRAM -> bounded n (acn_handle ign n hs).
